@@ -130,6 +130,10 @@ pub fn judge(c: &VCase) -> (bool, Verdict) {
 
 pub const F1_SIG: &str = "C20/F1-single-region-validator-accepts-invalid-region";
 
+pub fn check_one(ctx: &mut Ctx, c: &VCase) -> Result<(), String> {
+    check(ctx, c, false)
+}
+
 fn check(ctx: &mut Ctx, c: &VCase, lattice: bool) -> Result<(), String> {
     let (got, want) = judge(c);
     if lattice {
@@ -265,7 +269,7 @@ pub fn run(ctx: &mut Ctx) {
         .into();
     ctx.assumptions = vec![
         "refpred.rs is transcribed from the property text / vhost-user specification (trusted base)".into(),
-        "a range ending exactly at 2^64 and a non-zero padding word of the single-region body are spec-silent (accepted either way)".into(),
+        "a range whose exclusive end is exactly 2^64 counts as a 64-bit wrap (the 64-bit sum overflows); a non-zero padding word of the single-region body and a zero inflight area size are spec-silent (accepted either way)".into(),
     ];
     ctx.exhaustive = Some(true);
 
@@ -290,4 +294,5 @@ pub fn run(ctx: &mut Ctx) {
         let strat = proptest::collection::vec(lat64(), *n..=*n).prop_map(move |f| VCase { ty: ty_s.clone(), f });
         ctx.prop_check(&format!("random_{ty}"), per_type, strat, |ctx, c| check(ctx, c, false));
     }
+    crate::fuzzing::corpus_check(ctx, "c20_valid");
 }
